@@ -2,7 +2,7 @@
 # Re-evaluate every kept seed (seeded/<name>/) against the current checks (quick tier only).
 # Seeds whose defect is the subject of another property's statement are run against that check too.
 cd /verif
-declare -A EXTRA=( [C13c]="C13,C14" [C15c]="C15,C11" [C06d]="C06,C03" [C14d]="C14,C02" [C05k]="C05,C19" )
+declare -A EXTRA=( [C13c]="C13,C14" [C15c]="C15,C11" [C06d]="C06,C03" [C14d]="C14,C02" [C05k]="C05,C19" [C05l]="C05,C19" [C02l]="C02,C12" [C09l]="C09,C04" )
 for d in seeded/*/; do
   name=$(basename $d); pid=$(python3 -c "import json;print(json.load(open('$d/meta.json'))['property'])")
   extra=""; [ -n "${EXTRA[$name]}" ] && extra="--checks=${EXTRA[$name]}"
